@@ -1180,7 +1180,82 @@ impl Child {
     }
 }
 
+/// A test sink whose destructor tells the harness that it runs and then waits for a gate: while
+/// it waits, whatever lock the implementation holds around the removal of the sink stays held.
+struct GateSink {
+    inst: u64,
+    entered: std::sync::mpsc::Sender<()>,
+    gate: Mutex<std::sync::mpsc::Receiver<()>>,
+}
+impl EntrySink<BoxEntry> for GateSink {
+    fn append(&self, entry: BoxEntry) {
+        RecSink { inst: self.inst }.append(entry)
+    }
+    fn flush_async(&self) -> FlushWait {
+        FlushWait::ready()
+    }
+}
+impl Drop for GateSink {
+    fn drop(&mut self) {
+        let _ = self.entered.send(());
+        let _ = lock(&self.gate).recv_timeout(std::time::Duration::from_secs(10));
+    }
+}
+
+/// One fixed history with real concurrency: the guards of two runtimes' test sinks are dropped
+/// at the same time on two threads, the first removed sink still being destroyed (gated) when
+/// the second drop begins. Both guards must take effect. Sound without a controlled scheduler:
+/// the first thread is known to be inside the removal when the second drop starts; how long the
+/// second drop then has to wait (50 ms gate) does not matter for the outcome on a correct tree.
+fn contended_runtime_guard_drops() -> ! {
+    let mk = || tokio::runtime::Builder::new_current_thread().build().expect("runtime");
+    let (rt0, rt1) = (mk(), mk());
+    let mut v = Violations::default();
+    let attached = VerifGlobal::attach((RecSink { inst: 3 }, RecHandle { inst: 3 }));
+    let (entered_tx, entered_rx) = std::sync::mpsc::channel();
+    let (gate_tx, gate_rx) = std::sync::mpsc::channel();
+    let g0 = VerifGlobal::set_test_sink_for_tokio_runtime(rt0.handle(), BoxEntrySink::new(GateSink { inst: 1, entered: entered_tx, gate: Mutex::new(gate_rx) }));
+    let g1 = VerifGlobal::set_test_sink_for_tokio_runtime(rt1.handle(), BoxEntrySink::new(RecSink { inst: 2 }));
+    let t = std::thread::spawn(move || drop(g0));
+    entered_rx.recv_timeout(std::time::Duration::from_secs(10)).expect("the removed sink is destroyed inside the guard's drop");
+    let opener = std::thread::spawn(move || {
+        std::thread::sleep(std::time::Duration::from_millis(50));
+        let _ = gate_tx.send(());
+    });
+    drop(g1);
+    t.join().unwrap();
+    opener.join().unwrap();
+    // both guards are gone: an entry appended inside either runtime goes to the attached sink
+    for (r, rt) in [(0u64, &rt0), (1, &rt1)] {
+        let id = 100 + r;
+        let before = lock(&LOG).len();
+        let back = rt.block_on(async { VerifGlobal::try_append(VEntry { id, tag: tag_of(id) }).err().map(|e| e.id) });
+        let got: Vec<u64> = lock(&LOG)[before..].iter().filter_map(|e| if let Ev::Recv { inst, id: i, .. } = e { (*i == id).then_some(*inst) } else { None }).collect();
+        if back.is_some() || got != vec![3] {
+            v.add(
+                "not-restored-after-drop:runtime-guards-dropped-concurrently",
+                format!("the test sink guards of R0 and R1 were dropped concurrently (R0's removed sink still being destroyed when R1's drop began); afterwards an entry appended inside R{r} was delivered to instance(s) {got:?} (handed back: {}), expected the attached sink (3) only", back.is_some()),
+                json!({"history": ["attach", "rt-install:R0 (sink with a gated destructor)", "rt-install:R1", "T1: rt-drop:R0 (destructor waits)", "T0: rt-drop:R1 (concurrently)", "gate opens", format!("try_append inside R{r}")], "delivered_to": got}),
+            );
+        }
+        // and a new test sink can be installed for that runtime
+        let again = catch_unwind(AssertUnwindSafe(|| VerifGlobal::set_test_sink_for_tokio_runtime(rt.handle(), BoxEntrySink::new(RecSink { inst: 9 }))));
+        if again.is_err() {
+            v.add("not-restored-after-drop:runtime-guards-dropped-concurrently", format!("after both guards were dropped, installing a test sink for R{r} panics"), json!({"runtime": r}));
+        }
+        drop(again);
+    }
+    drop(attached);
+    let viol: Vec<J> = v.by_key.values().map(|v| json!({"key": v.key, "what": v.what, "replay": v.replay, "count": v.count})).collect();
+    println!("{}", json!({"histories": 1, "transitions": 7, "cleanup_ops": 0, "restore_checks": 2, "states": [], "outcomes": vec![0u64; 13], "violations": viol, "aborted": false, "extra": {}}));
+    std::process::exit(0)
+}
+
 fn child_main(a: &[String]) -> ! {
+    if a.first().map(|s| s.as_str()) == Some("contended-runtime-guard-drops") {
+        std::panic::set_hook(Box::new(|_| {}));
+        contended_runtime_guard_drops();
+    }
     let num = |i: usize| -> usize { a.get(i).and_then(|s| s.parse().ok()).unwrap_or_else(|| bad_child_args(a)) };
     match a.first().map(|s| s.as_str()) {
         Some(kind @ ("main" | "main-unwinding")) => {
@@ -1472,6 +1547,13 @@ fn parent_main() {
     }
     spaces_json.push(json!({"space": "no-forget:all-operations, every handle/guard drop by the unwinding of a caught panic", "depth": unw_depth,
         "symmetry_reduced": false, "histories_in_space": expect_unw, "histories_executed": got_unw}));
+
+    // 2c. one fixed history with real concurrency (two runtime guards dropped at the same time)
+    let outs_c = run_jobs(&[vec![s("contended-runtime-guard-drops")]], 1);
+    if merge(&outs_c, &mut tot, &mut rep) != 1 {
+        exhaustive = false;
+    }
+    spaces_json.push(json!({"space": "fixed history: the test-sink guards of two runtimes dropped concurrently on two threads (first removed sink still being destroyed)", "histories_in_space": 1, "histories_executed": 1}));
 
     // 3. forget anywhere: one fresh process per history
     let fa_cfg = EnumCfg { depth: forget_anywhere_len, sym: false, max_obs: unlimited, allow_forget: true };
